@@ -7,7 +7,7 @@ CONSTANTS
   WRels = {"unlock", "deleteunlock"}
   RRels = {"runlock", "deleterunlock"}
   PlainDelete = TRUE
-  Repaired = TRUE
+  Repaired = TRUE NonAtomicDeleteUnlock = FALSE
 CONSTRAINT Done
-INVARIANTS HoldsCurrent RWInv
+INVARIANTS RWInv
 CHECK_DEADLOCK FALSE
